@@ -21,6 +21,7 @@ function runJob(job) {
   const sandbox = {};
   Object.defineProperty(sandbox, '__emit', { value: emit, writable: true, enumerable: false, configurable: true });
   Object.defineProperty(sandbox, '__gc', { value: () => {}, writable: true, enumerable: false, configurable: true });
+  Object.defineProperty(sandbox, '__detach', { value: (b) => { if (!(b instanceof ArrayBuffer) && Object.prototype.toString.call(b) !== '[object ArrayBuffer]') throw new TypeError('__detach: not an ArrayBuffer'); structuredClone(b, { transfer: [b] }); }, writable: true, enumerable: false, configurable: true });
   for (const k of ['__f', '__t', '__a']) Object.defineProperty(sandbox, k, { value: undefined, writable: true, enumerable: false, configurable: true });
   const ctx = vm.createContext(sandbox, { microtaskMode: 'afterEvaluate' });
   if (!job.no_prelude) preludeScript.runInContext(ctx);
